@@ -6,10 +6,12 @@ HARNESSES = {
     "reread": dict(src=["harness/h_reread.cpp"], flavour="asan"),
     "tstamp": dict(src=["harness/h_tstamp.cpp"], flavour="asan"),
     "tables": dict(src=["harness/h_tables.cpp"], flavour="asan"),
+    "writers": dict(src=["harness/h_writers.cpp"], flavour="asan"),
 }
 
 ENGINE_TEXT = {
     "codec": "rapidcheck + exhaustive choice-tree enumeration on CdnsEncoder/CdnsDecoder, ASan+UBSan",
+    "writers": "rapidcheck + enumerated large-chunk classes on CborOutputWriter/Gzip/Xz writers, ASan+UBSan",
     "tstamp": "exhaustive grid + rapidcheck on Timestamp with __int128 reference, ASan+UBSan",
     "tables": "rapidcheck state machines on CdnsBlock tables and block copies, ASan+UBSan",
     "reread": "rapidcheck on CdnsReader over truncated / re-encoded / generated files, ASan+UBSan",
@@ -203,5 +205,22 @@ PROPS = {
         technique="property-based testing: stateful differential testing against a rebuilt reference, ASan as memory oracle",
         assumptions=[],
         jobs=[dict(harness="tables", prop="c19_value", cases=(16000, 400000), size=(30, 80))],
+    ),
+
+    "C14": dict(
+        rule="generated plans of write(chunk)/rotate_output on GzipCborOutputWriter and XzCborOutputWriter for file-name and descriptor targets: chunk sizes 0, 1, 2047/2048/2049, 65535/65536, "
+             "random up to 700 KiB (thorough 3 MiB); data classes zeros / repeating text / incompressible / mixed; plus enumerated large chunks (1, 4, 6.5, 9 MiB; thorough up to 48 MiB) x gzip/xz x name/fd "
+             "x incompressible/mixed, each followed by a rotation; plus end-to-end exporter histories with gzip/xz forced. Oracle: the same plan on the plain writer; every compressed output must be one "
+             "complete stream (strict independent zlib/liblzma decoding, nothing after it), carry the .gz/.xz suffix, and decompress byte for byte to the plain output. Non-trivial: bytes > 0 and "
+             "(>=2 writes | rotation | chunk >= 64 KiB).",
+        level_text="differential against the plain writer over generated write plans, enumerated large-chunk classes, independent decompression",
+        level_note="chunks above 48 MiB are not tried; python gzip/lzma is replaced by direct zlib/liblzma decoders in strict single-stream mode",
+        technique="property-based testing: differential testing over generated call plans + enumerated size classes",
+        assumptions=["zlib inflate / liblzma stream decoder are correct"],
+        jobs=[
+            dict(harness="writers", prop="c14_large", kind="enum", size=(30, 80)),
+            dict(harness="writers", prop="c14_plan", cases=(1600, 60000), size=(30, 80)),
+            dict(harness="hist", prop="hist_c14", cases=(3000, 80000), size=(40, 100)),
+        ],
     ),
 }
